@@ -36,7 +36,7 @@ type Options struct {
 
 func DefaultOptions() Options {
 	return Options{MaxSymBranch: 400, MaxBlockVisit: 64, MaxSteps: 4_000_000, MaxDepth: 120, MaxPaths: 200000,
-		MaxConc: 70, Preempt: -1, TimeoutMs: 60000, SolverBin: []string{"z3-new", "-in"}}
+		MaxConc: 300, Preempt: -1, TimeoutMs: 60000, SolverBin: []string{"z3-new", "-in"}}
 }
 
 type fnInfo struct {
